@@ -52,8 +52,13 @@ def run(ctx):
         ctx.nontrivial(shape)
         sig = judge(name, cls, sk)
         if sig:
-            ctx.report(sig + ':' + name, f'{name} ({cls}, {f}): clause order {shape}',
-                       {'kind': 'clang_delta-unit', 'name': name, 'class': cls, 'file': f, 'clauses': shape})
+            gap = None
+            for st in cdgen.split_stmts((ex.allfuncs.get((cls, 'HandleTranslationUnit')) or ['{}'])[0]):
+                g = cdgen.counter_guard_gap(st)
+                if g and g[0] == 'gap':
+                    gap = {'statement': ' '.join(st.split())[:300], 'let_through': g[1]}     # values for which no branch ends in the out-of-range error
+            ctx.report(sig + ':' + name, f'{name} ({cls}, {f}): clause order {shape}' + (f'; the counter guard lets through {gap["let_through"]} (ToCounter -1 = not given)' if gap else ''),
+                       {'kind': 'clang_delta-unit', 'name': name, 'class': cls, 'file': f, 'clauses': shape, 'guard_gap': gap})
     for n, fs in names.items():
         if len(fs) > 1:
             ctx.report('name-registered-twice:' + n, f'{n} registered in {fs}', {'kind': 'clang_delta-name', 'name': n, 'files': fs})
@@ -64,7 +69,7 @@ def run(ctx):
     ctx.sample({'name': 'simplify-struct', 'clauses': ''.join(ex.skeleton('SimplifyStruct') or ['?'])})
     conclude(ctx, [], None)
     ctx.assumptions += ['a statement is "rewriting" iff it (or a function / visitor class it reaches by name inside clang_delta/) mentions TheRewriter or RewriteHelper',
-                        'the C++ of the transformations is not executed or modelled beyond the order of these clauses; no correspondence run is possible (no Clang development files)']
+                        'a counter check counts only if its if-chain, evaluated over small values of (TransformationCounter, ValidInstanceNum, ToCounter) with every other condition taken as false, ends in TransMaxInstanceError/TransToCounterTooBigError whenever the counter exceeds the instances', 'the C++ of the transformations is not executed or modelled beyond the order of these clauses; no correspondence run is possible (no Clang development files)']
     return ctx.finish(obligations=OBLIGATIONS,
                       rule='all registered transformations (every static RegisterTransformation<…> in clang_delta/*.cpp); one skeleton each; '
                            'distinct = distinct clause-order shapes; the theorem all_wf decides the whole regenerated table',
